@@ -18,6 +18,15 @@ class GuardScheduler:
         self.guard_end = next(first + i for i, ln in enumerate(src) if ln.strip().startswith('self.mode = mode'))
         self.first = first
         self.src = src
+        # class-level state of the guard as it is before any store was created in this process: the owner record, and every
+        # class attribute that is a lock (or `None` where a lock is created lazily). Restored before every schedule, so that a
+        # schedule that left a thread stuck inside a critical section cannot poison the next ones.
+        self.initial: dict[str, object] = {}
+        for name, val in list(vars(TrajectoryStore).items()):
+            if name.startswith('__'):
+                continue
+            if val is None or (hasattr(val, 'acquire') and hasattr(val, 'release')):
+                self.initial[name] = val
 
     def line_text(self, no: int) -> str:
         import linecache
@@ -26,6 +35,16 @@ class GuardScheduler:
 
     def reset_class_state(self):
         self.TS.active_in_thread = None
+        for name, val in self.initial.items():
+            cur = getattr(self.TS, name, None)
+            if val is None:
+                if cur is not None and name != 'active_in_thread':
+                    setattr(self.TS, name, None)            # a lazily created lock: back to "not created yet"
+            elif cur is not val or (hasattr(cur, 'locked') and cur.locked()):
+                try:
+                    setattr(self.TS, name, type(val)())      # a fresh, unlocked lock of the same kind
+                except Exception:  # noqa: BLE001
+                    pass
 
     def run(self, schedule: list[int], nthreads: int = 2, preowner: int | None = None, region: str = 'guard'):
         """Run `nthreads` threads, each constructing a store, granting one traced line per schedule entry.
@@ -101,17 +120,32 @@ class GuardScheduler:
                 held = False
             return held and bool(lines[tid]) and self.line_text(lines[tid][-1]).startswith('with ')
 
+        stuck = {i: 0 for i in range(nthreads)}   # consecutive grants that found the thread blocked, with no other thread moving
+
+        def progressed(tid):
+            for j in stuck:
+                stuck[j] = 0 if j != tid else stuck[j]
+            stuck[tid] = 0
+
         def grant(tid):
             nonlocal blocked
             if done[tid]:
+                return
+            if stuck[tid] >= 3:
+                # blocked three grants in a row while nobody else moved: only another thread's progress can unblock it, so
+                # further grants are no-ops (the model sees them as such) — do not wait a full timeout for each
+                eff.append(tid)
+                blocked += 1
                 return
             if not waiting[tid]:
                 # inside a blocking call from an earlier grant: did it get through meanwhile?
                 eff.append(tid)
                 if arrived[tid].wait(0.02 if expect_block(tid) else self.timeout):
                     waiting[tid] = True
+                    progressed(tid)
                 else:
                     blocked += 1
+                    stuck[tid] += 1
                 return
             short = expect_block(tid)
             arrived[tid].clear()
@@ -119,18 +153,28 @@ class GuardScheduler:
             eff.append(tid)
             if arrived[tid].wait(0.02 if short else self.timeout):
                 waiting[tid] = True
+                progressed(tid)
             else:
                 waiting[tid] = False
                 blocked += 1
+                stuck[tid] += 1
 
         for tid in schedule:
             grant(tid)
         # drain: let everything finish, round-robin
+        stalled = 0
         for _ in range(400):
             if all(done.values()):
                 break
+            before = (sum(len(v) for v in lines.values()), sum(done.values()))
             for i in range(nthreads):
                 grant(i)
+            stalled = stalled + 1 if (sum(len(v) for v in lines.values()), sum(done.values())) == before else 0
+            if stalled >= 6:
+                break          # no thread moved for six rounds: a deadlock inside the code under test; reported as 'stuck'
+        for i in range(nthreads):
+            if not done[i]:
+                result.setdefault(i, 'stuck')
         for t in ths:
             t.join(5.0)
         return dict(result), {k: list(v) for k, v in lines.items()}, blocked, eff
